@@ -446,6 +446,8 @@ def run_c10(tier: str) -> int:
                        "verdict bits are unconstrained: the solver's work is exhaustive path forking"]
     for r in pmap(_dispatch, cases):
         rep.merge(r)
+        if rep.red_enough():
+            break
     if rep.vacuity.get("accept_paths", 0) == 0 or rep.vacuity.get("reject_paths", 0) == 0:
         rep.inconclusive.append(f"vacuity: need accepting and rejecting paths, got {rep.vacuity}")
     rep.extra["traces_validated_against_impl"] = len(REAL_CASES)
